@@ -377,8 +377,9 @@ impl CredentialStore for Seam {
         if res.is_ok() {
             self.publish();
             let mut w = lk(&self.world);
-            if !w.creds.iter().any(|c| c.id == snap.id) {
-                w.creds.push(ModelCred { id: snap.id.clone(), rp_id: snap.rp_id.clone() });
+            match w.creds.iter_mut().find(|c| c.id == snap.id) {
+                Some(c) => c.rp_id = snap.rp_id.clone(),
+                None => w.creds.push(ModelCred { id: snap.id.clone(), rp_id: snap.rp_id.clone() }),
             }
             w.log(Ev::Applied { save: true, cred: snap, prev });
         }
